@@ -611,13 +611,34 @@ class ImportMap(object):
         """
         Return a copy of self without the given imports.
         Matches both keys and values.
+
+        A name ``a.b`` is matched by ``from a import b``, by ``import a.b``
+        and by a star import of ``a`` or of a package containing ``a``::
+
+          >>> m = ImportMap({'a.b': 'z.b', 'm.x.f': 'n.f', 'q': 'r'})
+          >>> m.without_imports(['import a.b', 'from m import *'])
+          ImportMap({'q': 'r'})
+
         """
         removals = ImportSet(removals)
         if not removals:
             return self # Optimization
         cls = type(self)
+        # Preprocess star imports to remove, as ImportSet.without_imports does.
+        star_module_removals = set(
+            [imp.split.module_name
+             for imp in removals if imp.split.member_name == "*"])
+        def removed(name):
+            imp = Import(name)
+            if imp in removals or Import.from_parts(name, name) in removals:
+                return True
+            if star_module_removals and imp.split.module_name:
+                prefixes = dotted_prefixes(imp.split.module_name)
+                if any(pfx in star_module_removals for pfx in prefixes):
+                    return True
+            return False
         result = [(k, v) for k, v in self._data.items()
-                  if Import(k) not in removals and Import(v) not in removals]
+                  if not removed(k) and not removed(v)]
         if len(result) == len(self._data):
             return self # Space optimization
         return cls(dict(result))
